@@ -9,6 +9,8 @@ use crate::par::HangReport;
 
 pub mod c01;
 pub mod c02;
+pub mod c03;
+pub mod c04;
 pub mod c05;
 pub mod c06;
 pub mod c07;
@@ -17,6 +19,7 @@ pub mod c09;
 pub mod c10;
 pub mod c11;
 pub mod c12;
+pub mod c13;
 
 pub struct Ctx {
     pub prop: String,
